@@ -73,8 +73,19 @@ def io_graph(rng, depth=0):
     if depth < 2 and rng.random() < 0.25:
         sub = io_graph(rng, depth + 1)
         g["nodes"].append(["sub", sub])
-        if rng.random() < 0.5 and g["nodes"]:
+        r2 = rng.random()
+        if r2 < 0.4 and g["nodes"]:
             g["edges"].append([g["nodes"][0][0], "sub"])
+        elif r2 < 0.8:
+            # dotted port references into the nested graph ("sub.<inner node>")
+            inner_in = [n for n, rec in sub["nodes"] if rec["type"] == "Input"]
+            inner_out = [n for n, rec in sub["nodes"] if rec["type"] == "Output"]
+            outer = [n for n, rec in g["nodes"] if n != "sub"]
+            outer_src = [n for n, rec in g["nodes"] if rec["type"] == "Input"] or outer
+            if inner_in and outer_src:
+                g["edges"].insert(rng.randrange(0, len(g["edges"]) + 1), [rng.choice(outer_src), "sub." + rng.choice(inner_in)])
+            if inner_out and outer and rng.random() < 0.6:
+                g["edges"].append(["sub." + rng.choice(inner_out), rng.choice(outer)])
     return g
 
 
